@@ -6,7 +6,7 @@
 set -u
 ID=$1; shift
 SEED=/verif/seeded/$ID
-PROP=${ID%%-*}
+PROP=${PROP:-${ID%%-*}}
 PKG=$(grep -m1 '^pkgdir:' $SEED/notes.md | sed 's/pkgdir: *//')
 TESTPKGS=$(grep -m1 '^testpkgs:' $SEED/notes.md | sed 's/testpkgs: *//')
 [ -z "$PKG" ] && PKG=${PKGDIR:-ring}
